@@ -194,6 +194,18 @@ CHECKS["C12"] = dict(
          "through C11's compiler names, not interpreted by the specification. Sampled, not exhaustive.",
     design="3/C12")
 
+CHECKS["C14"] = dict(
+    technique="TLA+ model of the pipeline with every runtime-chosen order explicit (MC_Schedules), confluence checked by "
+              "TLC over all schedules; the explored schedules replayed into the real CLIs (platform table order, "
+              "os.scandir shim, PYTHONHASHSEED) and compared with the Reports/Duplicates expectations",
+    text="TLC explores every platform order, file enumeration order and extract_platforms order of the abstract pipeline "
+         "and checks that table, label decoding through the legend, divergence and coverage are the canonical function of "
+         "the input (and exhibits a counterexample when labels follow set iteration order); the distinct schedules are "
+         "replayed into fresh interpreters running codebasin, cbi-tree, cbi-cov and -R duplicates on generated code bases; "
+         "each run's parsed output must equal the specification's expectation as a mathematical object (ordering alone is "
+         "never a violation). The hash-seed and enumeration-order spaces are sampled through the schedules, not enumerated.",
+    design="3/C14")
+
 PENDING_REASON = "check not built yet (build in progress; see DESIGN.md section 7)"
 
 
